@@ -105,6 +105,7 @@ func tunnelCert() tls.Certificate {
 type tunnel struct {
 	kind        string // tcp, sni, dynamic, ws
 	pxyproto    bool
+	byOption    bool // the route is marked TCP by its option proto=tcp (destination written with another scheme), not by a tcp:// destination
 	mode        string // both-finish-upstream-closes, both-finish-client-closes, client-only, upstream-only, half-close
 	client      []byte // application bytes the client sends (after the hello on sni)
 	upstream    []byte
@@ -186,6 +187,7 @@ func genTunnel(t *rapid.T, kinds []string) tunnel {
 	tn.mode = rapid.SampledFrom([]string{"both/upstream-closes", "both/client-closes", "client-only", "upstream-only", "half-close"}).Draw(t, "mode")
 	tn.pxyproto = (tn.kind == "tcp" || tn.kind == "sni" || tn.kind == "tcp+tls") && rapid.Bool().Draw(t, "pxyproto")
 	tn.v6 = tn.kind != "ws" && haveV6 && rapid.IntRange(0, 3).Draw(t, "ipv6-client") == 0
+	tn.byOption = tn.kind != "ws" && rapid.IntRange(0, 2).Draw(t, "route-marked-tcp-by-option") == 0
 	switch tn.mode {
 	case "client-only":
 		tn.client = genStream(t, "c", false)
@@ -368,7 +370,26 @@ func runTunnel(tn tunnel) (res result) {
 	}()
 
 	// ---- fabio in the middle
-	tg := &route.Target{Service: "svc", URL: &url.URL{Scheme: "tcp", Host: up.Addr().String()}, ProxyProto: tn.pxyproto}
+	// the target as the route language describes it
+	var opts []string
+	dst := "tcp://" + up.Addr().String()
+	if tn.byOption {
+		dst = "https://" + up.Addr().String()
+		opts = append(opts, "proto=tcp")
+	}
+	if tn.pxyproto {
+		opts = append(opts, "pxyproto=true")
+	}
+	line := "route add svc tunnel.example/ " + dst
+	if len(opts) > 0 {
+		line += ` opts "` + strings.Join(opts, " ") + `"`
+	}
+	tbl, terr := route.NewTable(bytes.NewBufferString(line))
+	if terr != nil {
+		fail("route rejected: %v: %s", terr, line)
+		return
+	}
+	tg := tbl["tunnel.example"][0].Targets[0]
 	lookup := func(h string) *route.Target {
 		mu.Lock()
 		res.lookups = append(res.lookups, h)
@@ -622,6 +643,9 @@ func classify(tn tunnel) {
 	}
 	if tn.pxyproto {
 		hx.Class("pxyproto")
+	}
+	if tn.pxyproto && tn.byOption {
+		hx.Class("pxyproto-on-a-route-marked-tcp-by-option")
 	}
 	if tn.pxyproto && tn.v6 {
 		hx.Class("pxyproto-with-ipv6-client")
